@@ -81,7 +81,9 @@ func (c *checker) checkLeaderSend(r *rpcRec, e *sim.Ev) {
 	}
 	// the previous entry a leader names exists in its own history with that term: in its log,
 	// or - when it is the last entry its snapshot covers - in the committed history
-	if p, t := r.c, r.d; p > 0 {
+	// (checked only while the sender is still in Leader state: a deposed leader's replication
+	// routine may send a request it built before its log was truncated by the new leader)
+	if p, t := r.c, r.d; p > 0 && c.server(r.from.s).state == Leader {
 		d := c.server(r.from.s).disk
 		if en, ok := d.logs[p]; ok {
 			c.cov("ae-prev-checked-against-leader-log")
